@@ -10,6 +10,7 @@ static void rep(const char* what, double resid, double tol=1e-9) { if (!(resid <
 static double n2(const SpatialVec& a){ return std::sqrt(a[0].normSqr()+a[1].normSqr()); }
 static double nm(const Mat33& m){ double s=0; for(int i=0;i<3;i++)for(int j=0;j<3;j++) s+=m(i,j)*m(i,j); return std::sqrt(s); }
 int main(int argc, char** argv) {
+  try {
   unsigned seed = argc>1 ? (unsigned)atoi(argv[1]) : 0; srand(seed+12345);
   auto rnd=[&](){ return 2.0*rand()/RAND_MAX-1.0; }; auto rv=[&](){ return Vec3(rnd(),rnd(),rnd()); }; auto rsv=[&](){ return SpatialVec(rv(),rv()); };
   for (int it=0; it<20; ++it) {
@@ -50,7 +51,52 @@ int main(int argc, char** argv) {
     rep("ABI quadratic form invariant", std::fabs(~Zs*(Ps*Zs) - ~Z*(P*Z)), 1e-8);
     ArticulatedInertia Pi(M0); Pi.shiftInPlace(s); rep("ABI shiftInPlace == shift", n2(Pi*Z-Ps*Z), 1e-9);
     SymMat33 Ms(1.5,0.2,2.5,-0.3,0.4,3.5); rep("cross(v,SymMat)", nm(Mat33(cross(w,Ms)-crossMat(w)*Mat33(Ms))));
+    // ---- re-expression, transform, MassProperties (obligations of units massprops.transform / massprops.class) ----
+    { Rotation Rb(rnd()*3, UnitVec3(rnd(),rnd(),rnd()+1.5)); Transform Xbc(Rb, s);
+      Mat33 Rm = Rb.asMat33();
+      Inertia Ire = I0.reexpress(Rb);
+      rep("Inertia::reexpress == ~R I R", nm(Mat33(Ire.toMat33() - (~Rm)*I0.toMat33()*Rm)), 1e-9);
+      rep("reexpress preserves trace", std::fabs(Ire.toMat33().trace() - I0.toMat33().trace()), 1e-9);
+      rep("reexpress preserves determinant", std::fabs(det(Ire.toMat33()) - det(I0.toMat33())), 1e-8);
+      SpatialInertia Mt = M0.transform(Xbc);
+      rep("SpatialInertia::transform com == ~R (c - s)", (Mt.getMassCenter() - (~Rm)*(c-s)).norm(), 1e-9);
+      SpatialVec VB((~Rm)*T[0], (~Rm)*(T[1] + T[0]%s));
+      rep("KE invariant under transform", std::fabs(~VB*(Mt*VB) - ~T*mom), 1e-8);
+      MassProperties mp(m, c, G);
+      MassProperties tp = mp.calcTransformedMassProps(Xbc);
+      rep("calcTransformedMassProps com == ~X_BC * c", (tp.getMassCenter() - (~Rm)*(c-s)).norm(), 1e-9);
+      rep("calcTransformedMassProps com agrees with SpatialInertia::transform", (tp.getMassCenter() - Mt.getMassCenter()).norm(), 1e-9);
+      rep("calcTransformedMassProps inertia agrees with SpatialInertia::transform", nm(Mat33(tp.calcInertia().toMat33() - m*Mt.getUnitInertia().toMat33())), 1e-8);
+      rep("calcTransformedMassProps central inertia == ~R Ic R", nm(Mat33(tp.calcCentralInertia().toMat33() - (~Rm)*mp.calcCentralInertia().toMat33()*Rm)), 1e-8);
+      MassProperties sp2 = mp.calcShiftedMassProps(s);
+      rep("calcShiftedMassProps agrees with SpatialInertia::shift", (sp2.getMassCenter()-M1.getMassCenter()).norm() + nm(Mat33(sp2.calcInertia().toMat33() - m*M1.getUnitInertia().toMat33())), 1e-8);
+      MassProperties rp = mp.reexpress(Rb);
+      rep("MassProperties::reexpress", (rp.getMassCenter()-(~Rm)*c).norm() + nm(Mat33(rp.getUnitInertia().toMat33() - (~Rm)*G.toMat33()*Rm)), 1e-9);
+      SpatialInertia Mb(0.5+std::fabs(rnd()), Vec3(rnd(),rnd(),rnd()), UnitInertia(1.2,1.1,1.3));
+      SpatialInertia Msum(M0); Msum += Mb;
+      rep("SpatialInertia += : momentum additive", n2(Msum*T - (M0*T + Mb*T)), 1e-8);
+      Msum -= Mb; rep("SpatialInertia (a+=b)-=b", n2(Msum*T - M0*T), 1e-8);
+    }
+    // ---- isValidInertiaMatrix (unit massprops.valid): acceptance within the documented relative slop only ----
+    { const double sig = SignificantReal; int wrong = 0;
+      double a = 0.05+std::fabs(rnd()), b = 0.05+std::fabs(rnd());
+      for (int k=0;k<3;k++) { // triangle inequality violated by 1e-6 of the trace (>> slop): must be rejected; exactly on the boundary: accepted
+        Vec3 d; d[k]=a+b; d[(k+1)%3]=a; d[(k+2)%3]=b; double tr=d.sum();
+        Vec3 dv=d; dv[k] += 1e-6*std::max(tr,1.0);
+        if (Inertia::isValidInertiaMatrix(SymMat33(dv[0],0,dv[1],0,0,dv[2]))) wrong++;
+        if (!Inertia::isValidInertiaMatrix(SymMat33(d[0],0,d[1],0,0,d[2]))) wrong++;
+        Vec3 dn=d; dn[k] = -1e-9;                                  // negative diagonal: rejected
+        if (Inertia::isValidInertiaMatrix(SymMat33(dn[0],0,dn[1],0,0,dn[2]))) wrong++;
+      }
+      // product of inertia bound: |2 Iyz| <= Ixx + slop
+      double x=1+std::fabs(rnd());
+      if (Inertia::isValidInertiaMatrix(SymMat33(x,0,2*x,0,0.5*x+1e-6*x,2*x))) wrong++;     // m21 = Iyz -> bounded by d[0]/2
+      if (!Inertia::isValidInertiaMatrix(SymMat33(x,0,2*x,0,0.5*x,2*x))) wrong++;
+      (void)sig;
+      rep("isValidInertiaMatrix accepts/rejects per the documented conditions with slop Significant*max(trace,1)", wrong, 0);
+    }
   }
+  } catch (const std::exception& e) { printf("REPRODUCED: exception on valid mass properties (identities violated so far: %d): %s\n", bad, e.what()); return 1; }
   printf(bad ? "REPRODUCED: %d identities violated natively\n" : "NOT-REPRODUCED (%d)\n", bad);
   return bad?1:0;
 }
